@@ -26,12 +26,19 @@ VERIF = os.path.dirname(os.path.abspath(__file__))
 REPO = "/repo"
 
 
+def _default_sigint():
+    # a background job of a non-interactive shell ignores SIGINT; the tests and checks need it
+    import signal
+
+    signal.signal(signal.SIGINT, signal.SIG_DFL)
+
+
 def sh(cmd, env=None, cwd=None, timeout=3600):
     full = dict(os.environ)
     full.update(env or {})
     start = time.time()
     proc = subprocess.run(cmd, shell=True, cwd=cwd, env=full, capture_output=True, text=True,
-                          timeout=timeout)
+                          timeout=timeout, preexec_fn=_default_sigint)
     return proc.returncode, proc.stdout + proc.stderr, time.time() - start
 
 
